@@ -13,6 +13,10 @@ PID = 'C15'
 RULE = ('LLE: mixtures of 2-5 chemicals containing a partially miscible pair (water with octane / hexane / toluene / butanol / octanol / ethyl acetate, plus alcohols/acetone), T 285-355 K, methods pseudo equilibrium / shgo / '
         'differential evolution, scale factors 10^U(-3,3), every top chemical, histories of 1-4 earlier calls at other temperatures (>= 2 K away, up and down) or compositions on the same stream followed by the judged call with '
         'use_cache True and False, compared with a fresh solver on a fresh stream. SLE: glucose / tetradecanol / acetic acid in 1-3 solvents, T 250-450 K, given and computed solubility, pure solute above / below Tm. '
+        'added by the coverage audit - LLE: compositions in which the pair is not dominant (10^U(-2,2) each), water-free pairs (methanol with hexane / heptane), package members at zero flow, feeds pre-split over l / L; histories whose '
+        'last call is at the judged point, within / just outside the cache tolerances (1e-3 K, 1e-5) or at another scale (the cache-hit branch), with the judged feed re-pooled over l / L, with chemicals absent in earlier calls '
+        '(remembered coefficients must be dropped: clause history-reset), another top chemical or method per step; call forms P=, single_loop=True, update=False (returned K and phase fraction). SLE: solute anywhere in the package, '
+        'a second solid-capable chemical holding solid and dissolved material, solvents at zero flow (pure solute inside a package), H= and P= forms, user activity coefficient with the ideal package, T at and next to Tm. '
         'non-trivial = two non-empty liquid phases (LLE) / solute partly dissolved or a pure solute (SLE); distinct = hash of the case')
 MIN_NONTRIVIAL = {'quick': 150, 'thorough': 3000}
 ASSUMPTIONS = ['equal-activity bound (relative to the largest activity): 1e-3 for every method; larger deviations of the Gibbs-minimising methods are classified by mechanism (component at the starting midpoint / Gibbs energy within 1e-6 of the polished minimum / beyond it) and reported under those keys', 'labels l/L are compared up to a swap when no top chemical is named']
@@ -22,7 +26,11 @@ _th = {}
 
 
 def required(tier):
-    return ['equal-activity', 'scale', 'top-chemical', 'history', 'history:use_cache', 'history:no-cache', 'history:T-decrease', 'sle:solute-only', 'sle:solubility', 'sle:pure', 'sle:gamma=ideal', 'sle:solid-in-feed', 'sle:history', 'sle:history:pure-then-solvent', 'method:shgo', 'method:pseudo equilibrium']
+    return ['equal-activity', 'scale', 'top-chemical', 'history', 'history:use_cache', 'history:no-cache', 'history:T-decrease', 'sle:solute-only', 'sle:solubility', 'sle:pure', 'sle:gamma=ideal', 'sle:solid-in-feed', 'sle:history', 'sle:history:pure-then-solvent', 'method:shgo', 'method:pseudo equilibrium',
+            # coverage audit
+            'method:differential evolution', 'history:cache-hit', 'history:last-call-same', 'history:last-call-within', 'history:last-call-outside', 'history:last-call-scaled', 'history:re-pooled', 'history:chemical-set-changed',
+            'history-reset', 'history:top-changed', 'history:method-switched', 'composition:wide', 'composition:water-free', 'composition:zero-flow-member', 'feed:pre-split', 'pre-split', 'form:P', 'form:single_loop',
+            'form:update=False', 'call-form', 'sle2', 'sle:spec=H', 'sle:P-given', 'sle:activity_coefficient', 'sle:solute-not-first', 'sle:second-solute-solid', 'sle:pure-in-package', 'sle:pure:next-to-Tm']
 
 
 def thermo(ids, gamma=None):
@@ -69,8 +77,51 @@ def gen_case(rng):
     hist = []
     for _ in range(rng.randrange(0, 5)):
         hist.append({'dT': rng.choice([-1, 1]) * round(rng.uniform(2, 40), 2), 'mult': [round(rng.uniform(0.3, 3), 3) for _ in ids] if rng.random() < 0.5 else None})
-    return {'t': 'lle', 'ids': ids, 'flows': flows, 'T': round(rng.uniform(285, 355), 2), 'method': rng.choices(['pseudo equilibrium', 'shgo', 'differential evolution'], [10, 3, 0.5])[0],
-            'k': round(10 ** rng.uniform(-3, 3), 6), 'top': rng.choice([None] + ids[:2] + ids), 'hist': hist, 'use_cache': rng.random() < 0.5}
+    c = {'t': 'lle', 'ids': ids, 'flows': flows, 'T': round(rng.uniform(285, 355), 2), 'method': rng.choices(['pseudo equilibrium', 'shgo', 'differential evolution'], [10, 3, 0.5])[0],
+         'k': round(10 ** rng.uniform(-3, 3), 6), 'top': rng.choice([None] + ids[:2] + ids), 'hist': hist, 'use_cache': rng.random() < 0.5}
+    return more_lle(rng, c)
+
+
+PAIRS2 = PAIRS + [('Methanol', 'Hexane'), ('Methanol', 'Heptane')]       # water-free partially miscible pairs
+
+
+def more_lle(rng, c):
+    """coverage audit: other compositions (pair not dominant, water-free pairs, zero-flow members, feed pre-split over l / L), histories that end on / next to the judged point
+    (the cache-hit branch), that change the chemical set, the top chemical or the method between calls, and the other call forms (P, single_loop, update=False)"""
+    ids = c['ids']
+    if rng.random() < 0.3:
+        base = rng.choice(PAIRS2)
+        extra = rng.sample([e for e in EXTRA + ('Water',) if e not in base], rng.randrange(0, 4))
+        ids = c['ids'] = list(base) + extra
+        c['flows'] = [round(10 ** rng.uniform(-2, 2), 4) for _ in ids]
+        for k in range(2, len(ids)):
+            if rng.random() < 0.15: c['flows'][k] = 0.0          # a member of the package that is not in the feed
+        c['comp'] = 'wide'
+        c['top'] = rng.choice([None] + ids)
+        c['hist'] = [dict(h, mult=([round(rng.uniform(0.3, 3), 3) for _ in ids] if h['mult'] else None)) for h in c['hist']]
+    n = len(ids)
+    c['presplit'] = [rng.choice([0.0, 1.0, round(rng.random(), 3)]) for _ in ids] if rng.random() < 0.5 else None
+    r = rng.random()
+    if r < 0.45:
+        # the last earlier call is on / next to the judged point: exactly the same, within the cache tolerances (1e-3 K, 1e-5 in mole fraction), just outside them, or the same composition at another scale
+        kind = rng.choice(['same', 'same', 'within', 'within', 'outside', 'scaled'])
+        h = {'kind': kind, 'dT': 0.0, 'mult': None}
+        if kind == 'within': h['dT'] = rng.choice([0.0, 5e-4, -5e-4]); h['mult'] = [1 + rng.choice([0.0, 5e-6, -5e-6]) for _ in ids]
+        elif kind == 'outside': h['dT'] = rng.choice([2e-3, -2e-3, 0.0]); h['mult'] = [1 + rng.choice([2e-5, -2e-5]) for _ in ids] if (h['dT'] == 0.0 or rng.random() < 0.5) else None
+        elif kind == 'scaled': h['k'] = round(10 ** rng.uniform(-2, 2), 5)
+        c['hist'] = c['hist'][:3] + [h]
+        c['use_cache'] = rng.random() < 0.75
+        c['repool'] = [rng.choice([0.0, 1.0, round(rng.random(), 3)]) for _ in ids] if rng.random() < 0.5 else None     # the judged feed distributed differently over l / L
+    elif r < 0.7 and c['hist']:
+        # earlier calls that differ in which chemicals are present, in the top chemical, in the method
+        for h in c['hist']:
+            if rng.random() < 0.5:
+                m = h['mult'] or [1.0] * n
+                z = rng.randrange(n); h['mult'] = [0.0 if j == z else v for j, v in enumerate(m)]
+            if rng.random() < 0.4: h['top'] = rng.choice([None] + ids)
+            if rng.random() < 0.3: h['method'] = rng.choice(['pseudo equilibrium', 'shgo'])
+    c['forms'] = {'single_loop': rng.random() < 0.35, 'P': rng.choice([None, None, round(10 ** rng.uniform(4.5, 6), 1)]), 'update_false': rng.random() < 0.3}
+    return c
 
 
 def numeric_failure(e):
@@ -101,11 +152,15 @@ def rows(s):
     return {p: s.imol[p].to_array().copy() for p in s.phases}
 
 
-def fresh_lle(th, ids, flows, T, method, top):
+def fresh_lle(th, ids, flows, T, method, top, presplit=None, **kw):
     s = tmo.MultiStream(None, phases=('L', 'l'), T=T, thermo=th)
-    for i, v in zip(ids, flows): s.imol['l', i] = v
+    for j, (i, v) in enumerate(zip(ids, flows)):
+        if not v: continue
+        if presplit and presplit[j]:
+            s.imol['L', i] = v * presplit[j]; s.imol['l', i] = v - v * presplit[j]
+        else: s.imol['l', i] = v
     lle = s.lle; lle.method = method
-    lle(T, top_chemical=top)
+    lle(T, top_chemical=top, **kw)
     return s
 
 
@@ -115,6 +170,9 @@ def run_lle(case, rec):
     flows = np.array(case['flows'], float)
     rec.hit('method:' + method)
     mtag = 'method=' + method
+    if case.get('comp'): rec.hit('composition:' + case['comp'])
+    if any(v == 0 for v in case['flows']): rec.hit('composition:zero-flow-member')
+    if 'Water' not in [i for i, v in zip(ids, case['flows']) if v]: rec.hit('composition:water-free')
     try:
         ref = fresh_lle(th, ids, flows, T, method, top)
     except Exception as e:
@@ -168,6 +226,10 @@ def run_lle(case, rec):
             if numeric_failure(e): rec.refuse(type(e).__name__)
             else: rec.exception('scale', e, what=f'lle of the scaled feed raised {type(e).__name__}: {str(e)[:120]}')
         rec.mark_nontrivial(case_hash(case))
+    try: lle_forms(case, rec, th, ids, flows, T, method, top, l, L, F, mtag)
+    except Exception as e:
+        if numeric_failure(e): rec.refuse('call form: ' + type(e).__name__)
+        else: rec.exception('call-form/' + mtag, e, what=f'lle call form ({method}) on {ids} raised {type(e).__name__}: {str(e)[:120]}')
     # history: earlier calls on the same stream, then the judged call
     if case['hist']:
         s = tmo.MultiStream(None, phases=('L', 'l'), T=T, thermo=th)
@@ -177,13 +239,36 @@ def run_lle(case, rec):
             Tprev = None
             for h in case['hist']:
                 f2 = flows * np.array(h['mult']) if h['mult'] else flows
+                if h.get('k'): f2 = f2 * h['k']
                 s.imol['L'] = 0
                 for i, v in zip(ids, f2): s.imol['l', i] = v
-                lle(T + h['dT'], top_chemical=top)
+                if 'method' in h: lle.method = h['method']; rec.hit('history:method-switched')
+                lle(T + h['dT'], top_chemical=(h['top'] if 'top' in h else top))
+                lle.method = method
                 Tprev = T + h['dT']
+                if 'top' in h and h['top'] != top: rec.hit('history:top-changed')
+                if h.get('kind'): rec.hit('history:last-call-' + h['kind'])
             if Tprev is not None and T < Tprev: decreased = True
             s.imol['L'] = 0
             for i, v in zip(ids, flows): s.imol['l', i] = v
+            if case.get('repool'):
+                for i, v, d in zip(ids, flows, case['repool']):
+                    if v and d: s.imol['L', i] = v * d; s.imol['l', i] = v - v * d
+                rec.hit('history:re-pooled')
+            # will the call take the cache-hit branch?  (same LLE chemicals, |dT| < 1e-3 K, every |dz| < 1e-5 against what the solver remembers)
+            hsfx = ''
+            last = case['hist'][-1]
+            set_changed = bool(last['mult']) and any((m_ * v == 0) != (v == 0) for m_, v in zip(last['mult'], flows))
+            try:
+                pos = flows > 0
+                zj = flows[pos] / flows[pos].sum()
+                same_set = [c_.ID for c_ in lle._lle_chemicals] == [i for i, v in zip(ids, flows) if v]
+                if case['use_cache'] and same_set and abs(T - lle._T) < lle.temperature_cache_tolerance and (np.abs(lle._z_mol - zj) < lle.composition_cache_tolerance).all():
+                    hsfx = '/cache-hit'; rec.hit('history:cache-hit')
+                else:
+                    set_changed = not same_set
+                    if set_changed: rec.hit('history:chemical-set-changed')
+            except Exception: pass
             lle(T, top_chemical=top, use_cache=case['use_cache'])
         except Exception as e:
             if numeric_failure(e): rec.refuse(type(e).__name__); return
@@ -198,7 +283,8 @@ def run_lle(case, rec):
         rec.hit('history:' + ctag)
         if decreased: rec.hit('history:T-decrease')
         tsfx = '/trivial-solution' if (not ok and method != 'pseudo equilibrium' and (trivial(rh) or trivial({'l': l, 'L': L}))) else ''
-        rec.check(ok, 'history', f'{mtag}/{ctag}' + ('/T-decrease' if decreased else '') + tsfx,
+        # when the chemicals present differ from those of the previous call the solver forgets its coefficients: the call is that of a fresh solver (judged under its own clause)
+        rec.check(ok, 'history-reset' if set_changed else 'history', f'{mtag}/{ctag}' + ('/T-decrease' if decreased else '') + hsfx + tsfx,
                   f'lle({method}, use_cache={case["use_cache"]}) at T={T} after {len(case["hist"])} earlier calls (last at T={Tprev}) differs from a fresh solver by {dev:.3g} of the feed: l {rh["l"].tolist()} vs fresh {l.tolist()}',
                   residual=dev)
 
@@ -272,12 +358,199 @@ def run_sle(case, rec):
     elif after['l'][j] in (0, present): rec.mark_nontrivial(case_hash((case['ids'], 'edge', round(T))))
 
 
+def same_split(ra, l, L, tol, top):
+    ok = np.allclose(ra['l'], l, rtol=0, atol=tol) and np.allclose(ra['L'], L, rtol=0, atol=tol)
+    if not ok and top is None:
+        ok = np.allclose(ra['L'], l, rtol=0, atol=tol) and np.allclose(ra['l'], L, rtol=0, atol=tol)
+    return ok
+
+
+def lle_forms(case, rec, th, ids, flows, T, method, top, l, L, F, mtag):
+    """other ways of making the same call: the feed pre-split over l / L, P given, single_loop, update=False"""
+    tol = {'pseudo equilibrium': 1e-7, 'shgo': 1e-5, 'differential evolution': 2e-2}[method] * F
+    base = {'l': l, 'L': L}
+    def tsfx(r): return '/trivial-solution' if (method != 'pseudo equilibrium' and (trivial(r) or trivial(base))) else ''
+    if case.get('presplit'):
+        r = rows(fresh_lle(th, ids, flows, T, method, top, presplit=case['presplit']))
+        ok = same_split(r, l, L, tol, top)
+        rec.hit('feed:pre-split')
+        rec.check(ok, 'pre-split', mtag + ('' if ok else tsfx(r)), f'lle({method}) at T={T} of a feed that starts distributed {case["presplit"]} over L / l differs from the same feed entirely in l: l {r["l"].tolist()} vs {l.tolist()} (ids={ids})')
+    forms = case.get('forms') or {}
+    if forms.get('P'):
+        s = fresh_lle(th, ids, flows, T, method, top, P=forms['P']); r = rows(s)
+        ok = same_split(r, l, L, tol, top)
+        rec.hit('form:P')
+        rec.check(ok, 'call-form', f'{mtag}/P' + ('' if ok else tsfx(r)), f'lle({method}, T={T}, P={forms["P"]}) differs from the call without P: l {r["l"].tolist()} vs {l.tolist()} (ids={ids})')
+    if forms.get('single_loop') and method == 'pseudo equilibrium':
+        s = fresh_lle(th, ids, flows, T, method, top, single_loop=True); r = rows(s)
+        rec.hit('form:single_loop')
+        rec.check(same_split(r, l, L, tol, top), 'call-form', f'{mtag}/single_loop', f'lle({method}, single_loop=True) at T={T} differs from the two-loop call: l {r["l"].tolist()} vs {l.tolist()} (ids={ids})')
+        if r['l'].sum() > 1e-9 * F and r['L'].sum() > 1e-9 * F:
+            G = th.Gamma(th.chemicals)
+            xl = r['l'] / r['l'].sum(); xL = r['L'] / r['L'].sum()
+            al = xl * G(xl.copy(), T); aL = xL * G(xL.copy(), T)
+            m = (xl >= 1e-8) & (xL >= 1e-8)
+            dev = float(np.abs(al - aL)[m].max() / max(al[m].max(), aL[m].max())) if m.any() else 0.0
+            rec.check(dev <= 1e-3, 'equal-activity', mtag, f'lle({method}, single_loop=True) at T={T}: activities differ between the liquids by {dev:.3g} of the largest activity (l: {al.tolist()}, L: {aL.tolist()}; ids={ids})', residual=dev)
+    if forms.get('update_false') and method != 'differential evolution':
+        # update=False returns (chemicals, K, phase fraction) instead of writing the split: they must be those of the writing call
+        ref = fresh_lle(th, ids, flows, T, method, top)
+        Kref, phiref = np.array(ref.lle._K, float), float(ref.lle._phi)
+        s = tmo.MultiStream(None, phases=('L', 'l'), T=T, thermo=th)
+        for i, v in zip(ids, flows):
+            if v: s.imol['l', i] = v
+        before = rows(s)
+        lle = s.lle; lle.method = method
+        ret = lle(T, top_chemical=top, update=False)
+        rec.hit('form:update=False')
+        if ret is not None:
+            chems_, K, phi = ret
+            ktol = 1e-9 if method == 'pseudo equilibrium' else 1e-3
+            rec.check([c.ID for c in chems_] == [i for i, v in zip(ids, flows) if v] and np.allclose(np.asarray(K, float), Kref, rtol=ktol, atol=0) and abs(phi - phiref) <= ktol, 'call-form', f'{mtag}/update=False',
+                      f'lle({method}, update=False) at T={T} returns K={np.asarray(K).tolist()}, phi={phi!r} but the writing call ends with K={Kref.tolist()}, phi={phiref!r} (ids={ids})')
+        after = rows(s)
+        if not all(np.array_equal(after[p_], before[p_]) for p_ in ('l', 'L')): rec.hit('form:update=False:rows-moved-between-l-and-L')     # observed, not a statement of C15 (totals are C03's)
+
+
+SOLUTES = ('Glucose', 'Tetradecanol', 'AceticAcid')
+
+
+def gen_sle2(rng):
+    """coverage audit: the named solute anywhere in the package, a second solid-capable chemical holding solid and dissolved material, solvents of the package at zero flow (pure solute inside
+    a larger package), the H= and P= call forms, a user activity coefficient with the ideal package, T at the melting point"""
+    a = rng.choice(SOLUTES)
+    b = rng.choice([None, None] + [x for x in SOLUTES if x != a])
+    solv = rng.sample(['Water', 'Ethanol', 'Methanol', 'Octane'], rng.randrange(0, 4))
+    members = [a] + ([b] if b else []) + solv
+    perm = list(range(len(members))); rng.shuffle(perm)
+    ids = [members[k] for k in perm]
+    fl = {a: round(10 ** rng.uniform(-2, 2), 4)}
+    for i in solv: fl[i] = 0.0 if rng.random() < 0.3 else round(10 ** rng.uniform(-2, 2), 4)
+    c = {'t': 'sle2', 'ids': ids, 'solute': a, 'other': b, 'flows': [fl.get(i, 0.0) for i in ids], 'dist': rng.choice([0.0, 1.0, round(rng.random(), 3), round(rng.random(), 3)]),
+         'other_s': round(10 ** rng.uniform(-2, 1), 4) if b and rng.random() < 0.8 else 0.0, 'other_l': round(10 ** rng.uniform(-2, 1), 4) if b and rng.random() < 0.6 else 0.0,
+         'T': round(rng.uniform(250, 450), 2), 'spec': rng.choice(['T', 'T', 'H']), 'hfrac': round(rng.uniform(-0.3, 1.3), 4), 'P': rng.choice([None, None, round(10 ** rng.uniform(4.5, 6), 1)]),
+         'solubility': rng.choice([None, None, round(rng.random() * 0.6, 4)]), 'gamma': rng.choice([None, 'ideal', 'ideal']), 'act': rng.choice([None, round(rng.uniform(0.2, 5), 3)]),
+         'Tedge': rng.choice([None] * 8 + ['Tm', 'Tm+', 'Tm-'])}
+    return c
+
+
+def run_sle2(case, rec):
+    ids = case['ids']; th = thermo(ids, case.get('gamma')); tmo.settings.set_thermo(th)
+    solute = case['solute']; j = ids.index(solute); other = case['other']
+    chem = th.chemicals[solute]; Tm = chem.Tm
+    T = case['T']
+    if case['Tedge'] == 'Tm': T = Tm
+    elif case['Tedge'] == 'Tm+': T = float(np.nextafter(Tm, np.inf))
+    elif case['Tedge'] == 'Tm-': T = float(np.nextafter(Tm, -np.inf))
+    def build(Ts):
+        s = tmo.MultiStream(None, phases=('s', 'l'), T=Ts, thermo=th)
+        v = case['flows'][j]
+        if case['dist'] > 0: s.imol['s', solute] = v * case['dist']
+        if case['dist'] < 1: s.imol['l', solute] = v - v * case['dist']
+        for i, f in zip(ids, case['flows']):
+            if i != solute and f: s.imol['l', i] = f
+        if other:
+            if case['other_s']: s.imol['s', other] = case['other_s']
+            if case['other_l']: s.imol['l', other] = case['other_l']
+        return s
+    s = build(T)
+    before = rows(s)
+    present = float(before['s'][j] + before['l'][j])
+    others_flow = float(before['s'].sum() + before['l'].sum() - present)
+    pure = others_flow == 0
+    kw = {}
+    if case['solubility'] is not None and not pure: kw['solubility'] = case['solubility']
+    if case['P']: kw['P'] = case['P']
+    act = case['act'] if case.get('gamma') == 'ideal' else None
+    try:
+        if case['spec'] == 'H':
+            # enthalpy between (and a little beyond) the all-solid and the all-liquid state at T
+            lo = build(T); lo.imol['s', solute] = present; lo.imol['l', solute] = 0.0
+            hi = build(T); hi.imol['l', solute] = present; hi.imol['s', solute] = 0.0
+            Hlo, Hhi = lo.H, hi.H
+            target = Hlo + case['hfrac'] * (Hhi - Hlo)
+            sle = s.sle
+            if act: sle.activity_coefficient = act
+            sle(solute, H=target, **kw)
+        else:
+            sle = s.sle
+            if act: sle.activity_coefficient = act
+            sle(solute, T=T, **kw)
+    except Exception as e:
+        if numeric_failure(e): rec.refuse(f'sle refused: {type(e).__name__}'); return
+        rec.exception('sle', e, what=f'sle({solute}, {case["spec"]}=..., {kw}) on {ids} raised {type(e).__name__}: {str(e)[:140]}'); return
+    after = rows(s)
+    rec.hit('sle2')
+    rec.hit('sle:spec=' + case['spec'])
+    if j != 0: rec.hit('sle:solute-not-first')
+    if other and (case['other_s'] or case['other_l']): rec.hit('sle:second-solute')
+    if other and case['other_s']: rec.hit('sle:second-solute-solid')
+    if case['P']: rec.hit('sle:P-given')
+    if act: rec.hit('sle:activity_coefficient')
+    if pure and len(ids) > 1: rec.hit('sle:pure-in-package')
+    tag = 'multi-solute' if other else 'package'
+    others_same = all(np.array_equal(np.delete(after[p], j), np.delete(before[p], j)) for p in ('s', 'l'))
+    rec.check(others_same, 'sle:solute-only', 'rows/' + tag + ('/H-spec' if case['spec'] == 'H' else ''), f'sle({solute}) changed chemicals other than the solute: before {before} after {after} (ids={ids})')
+    tot = after['s'][j] + after['l'][j]
+    rec.check(abs(tot - present) <= 1e-12 * present and after['s'][j] >= 0 and after['l'][j] >= 0, 'sle:solute-only', 'solute-total/' + tag, f'solute total changed {present!r} -> {tot!r} (s {after["s"][j]}, l {after["l"][j]})')
+    Tend = s.T
+    if pure:
+        if case['spec'] == 'T':
+            if case['Tedge'] == 'Tm':
+                rec.hit('sle:pure:at-Tm->' + ('solid' if after['l'][j] == 0 else 'liquid' if after['s'][j] == 0 else 'split')); rec.mark_nontrivial(case_hash(case)); return
+            if case['Tedge']: rec.hit('sle:pure:next-to-Tm')
+            if T > Tm: rec.check(abs(after['l'][j] - present) <= 1e-12 * present and after['s'][j] == 0, 'sle:pure', 'above-Tm/' + tag, f'pure {solute} (package {ids}) at T={T!r} > Tm={Tm!r}: liquid {after["l"][j]}, solid {after["s"][j]}')
+            else: rec.check(abs(after['s'][j] - present) <= 1e-12 * present and after['l'][j] == 0, 'sle:pure', 'below-Tm/' + tag, f'pure {solute} (package {ids}) at T={T!r} < Tm={Tm!r}: liquid {after["l"][j]}, solid {after["s"][j]}')
+        else:
+            # enthalpy given: above the melting point all liquid, below all solid, at the melting point any split
+            if Tend > Tm: rec.check(after['s'][j] == 0, 'sle:pure', 'above-Tm/H-spec', f'pure {solute}, H given: ends at T={Tend!r} > Tm={Tm!r} with solid {after["s"][j]}')
+            elif Tend < Tm: rec.check(after['l'][j] == 0, 'sle:pure', 'below-Tm/H-spec', f'pure {solute}, H given: ends at T={Tend!r} < Tm={Tm!r} with liquid {after["l"][j]}')
+            else: rec.ok('sle:pure')
+        rec.mark_nontrivial(case_hash(case)); return
+    liq = after['l'].sum()
+    xl = after['l'][j] / liq if liq else 0.0
+    given = 'solubility' in kw
+    slack = 1e-9
+    if given: sol = case['solubility']
+    else:
+        try:
+            sol = s.sle._solve_x(Tend)
+            # _solve_x iterates with _update_solubility: it may move the solute once more - restore what the call returned
+            s.imol['s', solute] = after['s'][j]; s.imol['l', solute] = after['l'][j]
+            if case['spec'] == 'H':
+                # the temperature iteration stops within 1e-3 K: the solubility applied last belongs to a temperature that close to the final one
+                s2 = s.sle._solve_x(Tend + 2e-3); s.imol['s', solute] = after['s'][j]; s.imol['l', solute] = after['l'][j]
+                slack += abs(s2 - sol)
+        except Exception: sol = None
+    if act and not given and sol is not None:
+        # user activity coefficient with the ideal package: the eutectic solubility with that coefficient
+        from chemicals import solubility_eutectic
+        exp = solubility_eutectic(Tend, Tm, chem.Hfus, chem.Cn.l(Tend), chem.Cn.s(Tend), act)
+        rec.check(abs(sol - exp) <= 1e-12 * max(abs(exp), 1e-300), 'sle:solubility', 'activity_coefficient', f'computed solubility {sol!r} of {solute} with activity_coefficient={act} is not the eutectic solubility {exp!r}')
+    if sol is not None:
+        rest = liq - after['l'][j]
+        usfx = ''
+        if case['spec'] == 'H' and not given and not (xl <= max(sol, 0.0) + slack or (after['s'][j] == 0 and xl <= present / (present + rest) + 1e-12)):
+            # mechanism: is the returned temperature a fixed point of the solver's own iteration (solubility at T -> split -> T from H)?  the equilibrium split at the returned
+            # temperature must then carry the specified enthalpy (to the iteration's 1e-3 K); if it does not, an unconverged iterate was returned (the iteration runs with checkiter=False)
+            try:
+                c2 = s.copy(); c2.sle(solute, T=Tend)
+                if abs(c2.H - target) > 1e-2 * max(c2.C, 1e-300): usfx = '/unconverged-temperature-iteration'
+            except Exception: pass
+        rec.check(xl <= max(sol, 0.0) + slack or (after['s'][j] == 0 and xl <= present / (present + rest) + 1e-12), 'sle:solubility', ('given/' if given else 'computed/') + tag + ('/H-spec' if case['spec'] == 'H' else '') + usfx,
+                  f'liquid mole fraction of {solute} {xl!r} exceeds the solubility {sol!r} although solid remains ({after["s"][j]}) (ids={ids}, T={Tend!r})', residual=max(0.0, xl - sol))
+        if after['s'][j] > 0 and sol > 0 and case['spec'] == 'T' and rest > 0:      # (without any other liquid there is nothing to dissolve in)
+            rec.check(abs(xl - sol) <= 1e-6, 'sle:solubility', 'saturated/' + tag, f'solid {solute} remains but the liquid mole fraction {xl!r} is not the solubility {sol!r} (ids={ids})', residual=abs(xl - sol))
+    if 0 < after['l'][j] < present: rec.mark_nontrivial(case_hash(case))
+    else: rec.mark_nontrivial(case_hash((case['ids'], 'edge', round(T))))
+
+
 def run_case(case, rec):
     rec.begin_case(case)
     with warnings.catch_warnings():
         warnings.simplefilter('ignore')
         try:
-            (run_sle if case['t'] == 'sle' else run_lle)(case, rec)
+            (run_sle if case['t'] == 'sle' else run_sle2 if case['t'] == 'sle2' else run_lle)(case, rec)
         except Exception as e:
             rec.exception('harness', e, what=f'harness error: {type(e).__name__}: {e}')
 
@@ -286,8 +559,17 @@ def replay(case, rec):
     run_case(case, rec)
 
 
+REGRESSION = [
+    # sle(H=...) with a solvent in which the solute is practically insoluble, enthalpy inside the melting plateau: the temperature iteration has no fixed point
+    {'t': 'sle2', 'ids': ['Methanol', 'Water', 'Tetradecanol'], 'solute': 'Tetradecanol', 'other': None, 'flows': [0.0, 0.0221, 0.0833], 'dist': 0.0, 'other_s': 0.0, 'other_l': 0.0, 'T': 276.27, 'spec': 'H',
+     'hfrac': 0.508, 'P': None, 'solubility': None, 'gamma': None, 'act': None, 'Tedge': None},
+]
+
+
 def run(rec, rng, tier, shard, nshards):
     n = 120 if tier == 'quick' else 2000
+    if shard == 0:
+        for case in REGRESSION: run_case(case, rec)
     for i in range(n):
         case = gen_case(rng)
         run_case(case, rec)
@@ -295,3 +577,5 @@ def run(rec, rng, tier, shard, nshards):
     # the solid-liquid cases are cheap (no global optimiser): many more of them
     for i in range(1500 if tier == 'quick' else 20000):
         run_case(gen_sle(rng), rec)
+    for i in range(700 if tier == 'quick' else 9000):
+        run_case(gen_sle2(rng), rec)
